@@ -236,7 +236,7 @@ def gen_cases(rng, tier):
         for seq in itertools.product(range(len(BASE_MAPS)), repeat=depth):
             ops = [[0, 0, mk_map(BASE_MAPS[i]), 0 if BASE_MAPS[i] else 3] for i in seq]
             cases.append({"in": [0, st, ops], "kind": "pairs"})
-            if depth == 2:
+            if depth == 2 and (a is None or tier == "thorough"):
                 ops2 = [ops[0], [2, [0]], ops[1]]
                 cases.append({"in": [0, st, ops2], "kind": "pairs-evict"})
     # ---- map histories: every map is built from the dict object used before (copy + edit / in-place edit) ----
@@ -250,6 +250,8 @@ def gen_cases(rng, tier):
                 continue
             for seq in itertools.product(range(len(pool)), repeat=n):
                 for hows in itertools.product((1, 2), repeat=n - 1):
+                    if n == 3 and hows == (2, 1) and tier != "thorough":
+                        continue
                     ops = [[0, 0, mk_map(pool[seq[0]]), 0, 0]]
                     for i, h in zip(seq[1:], hows):
                         ops.append([0, 0, mk_map(pool[i]), 2 if h == 2 and len(ops) % 2 else 0, h])
@@ -265,7 +267,7 @@ def gen_cases(rng, tier):
                 ops = [[0, 0, mk_map(m1), 0], [0, 0, mk_map(m2), 0 if m2 else 3], [0, 0, mk_map(m1), 1]]
                 cases.append({"in": [0, st, ops], "kind": "kinds"})
     # ---- random ----
-    nrand = 2500 if tier == "thorough" else 240
+    nrand = 2500 if tier == "thorough" else 200
     for _ in range(nrand):
         special = {}
         r = rng.random()
